@@ -45,6 +45,15 @@ def _scenarios(prop, tier, seed=0):
                    pool_max=1, R=3, B=14, oracles=BASE + ('results', 'deadlock', 'quiescent_complete', 'order')))
         L.append(S('c09_p1_try_desync_try', [T('A', ('try_sync', 0), ('desync', 0)), T('B', ('try_sync', 0))],
                    pool_max=1, R=3, B=14, oracles=BASE + ('results', 'deadlock', 'quiescent_complete')))
+        # a late / duplicate wake-up of the waker of an operation that has already finished (stale waker) lands at a solver-chosen point,
+        # e.g. while the try_sync closure is running; afterwards the idle object must accept a try_sync again
+        L.append(S('c09_p1_stale_wake_try', [T('A', ('future_desync', 0, {'fut': ('gate', 0), 'as': 'f'}), ('block_on', 'f'), ('try_sync', 0)), T('W', ('open_gate', 0), ('rewake', 0)),
+                                             T('Z', ('try_sync', 0, {'probe': True}), final=True)],
+                   pool_max=1, R=2, B=30, oracles=BASE + ('results', 'deadlock', 'final_try_sync', 'quiescent_complete')))
+        if not q:
+            L.append(S('c09_p0_stale_wake_try', [T('A', ('future_desync', 0, {'fut': ('gate', 0), 'as': 'f'}), ('block_on', 'f'), ('try_sync', 0)), T('W', ('open_gate', 0), ('rewake', 0)),
+                                                 T('Z', ('try_sync', 0, {'probe': True}), final=True)],
+                       pool_max=0, R=2, B=30, oracles=BASE + ('results', 'deadlock', 'final_try_sync')))
         if not q:
             L.append(S('c09_p1_sync_try_desync', [T('A', ('sync', 0)), T('B', ('try_sync', 0)), T('C', ('desync', 0))],
                        pool_max=1, R=3, B=14, oracles=BASE + ('results', 'deadlock', 'quiescent_complete')))
@@ -104,6 +113,11 @@ def _scenarios(prop, tier, seed=0):
             L.append(S('c01_p1_fut_sync', [T('A', ('future_desync', 0, {'fut': ('gate', 0), 'as': 'f'}), ('detach', 'f')), T('B', ('sync', 0)), T('W', ('open_gate', 0))],
                        pool_max=1, R=3, B=14, oracles=BASE))
             L += matrix('C01', lambda a, b, P: BASE)
+            # stale waker: an operation drained by A's sync left a waker behind that fires late, while a second future operation is suspended
+            # on the pool thread, and a try_sync arrives
+            L.append(S('c01_p1_stale_wake_try', [T('A', ('future_desync', 0, {'fut': ('gate', 0), 'as': 'f'}), ('detach', 'f'), ('sync', 0), ('future_desync', 0, {'fut': ('gate', 1), 'as': 'g'}), ('detach', 'g'), ('try_sync', 0)),
+                                                 T('W', ('open_gate', 0), ('rewake', 0), ('open_gate', 1))],
+                       pool_max=1, R=3, B=20, oracles=BASE))
     elif prop == 'C02':
         L.append(S('c02_p1_desync_desync', [T('A', ('desync', 0), ('desync', 0))], pool_max=1, R=3, B=14, oracles=BASE + ('order',)))
         L.append(S('c02_p0_sync_desync_sync', [T('A', ('sync', 0)), T('B', ('desync', 0), ('sync', 0))], pool_max=0, R=3, B=14, oracles=BASE + ('order',)))
@@ -151,6 +165,12 @@ def _scenarios(prop, tier, seed=0):
                    pool_max=1, R=3, B=16, oracles=BASE + ('deadlock', 'quiescent_complete', 'order')))
         L.append(S('c06_p0_sync_runner', [T('A', ('future_desync', 0, {'fut': ('gate', 0), 'as': 'f'}), ('detach', 'f'), ('sync', 0)), T('W', ('open_gate', 0))],
                    pool_max=0, R=3, B=16, oracles=BASE + ('deadlock', 'results')))
+        # stale waker of another thread: A's sync drained an earlier future operation (its WakeThread waker is kept by the event source and
+        # fired late), then B's sync drains a second suspended operation and is parked when the stale and then the real wake-up arrive
+        L.append(S('c06_p0_stale_other_thread', [T('A', ('future_desync', 0, {'fut': ('gate', 0), 'as': 'f'}), ('detach', 'f'), ('sync', 0)),
+                                                 T('B', ('future_desync', 0, {'fut': ('gate', 1), 'as': 'g'}), ('detach', 'g'), ('sync', 0), after=['A']),
+                                                 T('W', ('open_gate', 0), ('rewake', 0), ('open_gate', 1))],
+                   pool_max=0, seq='A W A B W B W B', B=24, oracles=BASE + ('deadlock', 'results')))
     elif prop == 'C07':
         L.append(S('c07_p1_await', [T('A', ('future_desync', 0, {'fut': 'ready', 'as': 'f'}), ('block_on', 'f'))], pool_max=1, R=3, B=16,
                    oracles=BASE + ('deadlock', 'fut_results')))
@@ -197,6 +217,11 @@ def _scenarios(prop, tier, seed=0):
                    pool_max=1, queues=0, R=(2 if q else 3), B=18, order=([0, 2, 1] if q else None), oracles=MEM))
         L.append(S('c05_p1_drop_elsewhere', [T('A', ('d_new', 'd'), ('d_desync', 'd'), ('d_give', 'd', 0)), T('B', ('d_take', 0, 'd'), ('d_drop', 'd'))],
                    pool_max=1, queues=0, R=3, B=16, oracles=MEM))
+        # a hand-polled future operation (polled while there is no pool thread: the caller drains, the queue waits for the next poll), then a
+        # pool thread becomes available and takes the woken queue over; the future is dropped unfinished and the Desync is dropped while the
+        # pool thread is inside the operation
+        L.append(S('c05_p0_poll_takeover_drop', [T('A', ('d_new', 'd'), ('d_future_desync', 'd', {'fut': ('gate', 0), 'as': 'f'}), ('poll', 'f'), ('set_max', 1), ('drop_fut', 'f'), ('d_drop', 'd')),
+                                               T('W', ('open_gate', 0))], pool_max=0, pool_slots=1, queues=0, seq='A W P0 A P0 A P0', B=34, oracles=MEM))
         if not q:
             L.append(S('c05_p1_two_desync_drop', [T('A', ('d_new', 'd'), ('d_desync', 'd'), ('d_desync', 'd'), ('d_drop', 'd'))], pool_max=1, queues=0, R=3, B=18, oracles=MEM))
             L.append(S('c05_p0_desync_drop', [T('A', ('d_new', 'd'), ('d_desync', 'd'), ('d_drop', 'd'))], pool_max=0, queues=0, R=2, B=24, oracles=MEM))
